@@ -52,6 +52,18 @@ func runShard(bin, prop, tier string, env []string, scratch string) (*core.Drive
 		return nil, err.Error()
 	}
 	pw.Close()
+	// backstop: a shard that is still there long after its budget is stuck
+	// beyond what its own per-case watchdog handles
+	limit := 600 * time.Second
+	for _, e := range env {
+		if strings.HasPrefix(e, "SIM_BUDGET_SEC=") {
+			if n, err := strconv.Atoi(e[len("SIM_BUDGET_SEC="):]); err == nil {
+				limit = time.Duration(n+420) * time.Second
+			}
+		}
+	}
+	killer := time.AfterFunc(limit, func() { cmd.Process.Kill() })
+	defer killer.Stop()
 	var res *core.DriverResult
 	sc := bufio.NewReaderSize(pr, 1<<20)
 	for {
